@@ -293,11 +293,16 @@ func (r *c02ref) emit(f HeaderField) int {
 func (r *c02ref) block(p []byte) int {
 	r.first = true
 	for len(p) > 0 {
+		// RFC 7541 §4.2: several size updates may open a block; only a field representation ends its beginning
+		// (the real decoder follows this since /repo commit 637fd12)
+		isSizeUpdate := p[0]&0xe0 == 0x20
 		rest, st := r.one(p)
 		if st == c02trunc {
 			return c02bad // block ends inside a representation
 		}
-		r.first = false
+		if !isSizeUpdate {
+			r.first = false
+		}
 		if st != c02ok {
 			return st
 		}
